@@ -128,7 +128,7 @@ def run_case(rng, acc):
     return
   opts = gen.Opts(max_nodes=rng.choice([4, 8, 14]), max_depth=5, p_share=0.35, p_clone=0.1,
                   btypes=['Config', 'Config', 'Partial'], fns=FNS, lattice=0.0, leaves=LEAVES,
-                  containers=['list', 'tuple', 'dict', 'point'], p_container=0.35, uid=False,
+                  containers=['list', 'tuple', 'dict', 'point', 'pointsub'], p_container=0.35, uid=False,
                   dict_keys=['k', 'j', 3])
   g = gen.DagGen(rng, opts)
   root = g.dag(root_fn=rng.choice(FNS))
